@@ -6,7 +6,9 @@ import numpy as np
 
 GROUPS = {"alp": ("ADMBASE", "admbase-lapse"), "betax": ("ADMBASE", "admbase-shift"),
           "betay": ("ADMBASE", "admbase-shift"), "betaz": ("ADMBASE", "admbase-shift"),
-          "rho": ("HYDROBASE", "hydrobase-rho"), "foo": ("MYTHORN", "mythorn-stuff"), "bar": ("MYTHORN", "mythorn-stuff"), "baz": ("MYTHORN", "mythorn-stuff")}
+          "rho": ("HYDROBASE", "hydrobase-rho"),
+          "Bvec[0]": ("HYDROBASE", "hydrobase-bvec"), "Bvec[1]": ("HYDROBASE", "hydrobase-bvec"), "Bvec[2]": ("HYDROBASE", "hydrobase-bvec"),
+          "foo": ("MYTHORN", "mythorn-stuff"), "bar": ("MYTHORN", "mythorn-stuff"), "baz": ("MYTHORN", "mythorn-stuff")}
 VARS_DEFAULT = ["alp", "betax", "betay", "betaz"]
 AUREL_NAME = {"alp": "alpha", "rho": "rho0"}
 
@@ -18,7 +20,7 @@ def vindex(v):
 def truth(var, restart, it, rl, M):
     """The interior array (x, y, z) that restart `restart` wrote for (var, it, rl): every entry distinct and decodable."""
     x, y, z = np.meshgrid(np.arange(M[0]), np.arange(M[1]), np.arange(M[2]), indexing="ij")
-    base = ((((vindex(var) * 8 + restart) * 4096 + it) * 4 + rl) * 32768)
+    base = ((((vindex(var) * 8 + restart) * 4096 + it) * 16 + rl) * 32768)
     return (base + x * 1024 + y * 32 + z).astype(np.float64)
 
 
@@ -26,31 +28,44 @@ def time_of(it):
     return 1.0 + it / 8.0
 
 
+def g3(g):
+    """Ghost widths per axis (x, y, z); a single number means the same width on every axis."""
+    return (g, g, g) if isinstance(g, int) else tuple(int(v) for v in g)
+
+
 def extended(var, restart, it, rl, M, g):
     """Interior plus g boundary points per side (boundary values negative and position dependent)."""
-    E = -1.0 - np.arange((M[0] + 2 * g) * (M[1] + 2 * g) * (M[2] + 2 * g), dtype=np.float64).reshape(
-        M[0] + 2 * g, M[1] + 2 * g, M[2] + 2 * g)
-    E[g:g + M[0], g:g + M[1], g:g + M[2]] = truth(var, restart, it, rl, M)
+    gx, gy, gz = g3(g)
+    E = -1.0 - np.arange((M[0] + 2 * gx) * (M[1] + 2 * gy) * (M[2] + 2 * gz), dtype=np.float64).reshape(
+        M[0] + 2 * gx, M[1] + 2 * gy, M[2] + 2 * gz)
+    E[gx:gx + M[0], gy:gy + M[1], gz:gz + M[2]] = truth(var, restart, it, rl, M)
     return E
 
 
 def piece(E, ch, g):
-    """Stored array [z][y][x] of chunk ch = owned box plus g ghost points per side."""
-    sub = E[ch["x"][0]:ch["x"][1] + 2 * g, ch["y"][0]:ch["y"][1] + 2 * g, ch["z"][0]:ch["z"][1] + 2 * g]
+    """Stored array [z][y][x] of chunk ch = owned box plus the ghost points of each axis on either side."""
+    gx, gy, gz = g3(g)
+    sub = E[ch["x"][0]:ch["x"][1] + 2 * gx, ch["y"][0]:ch["y"][1] + 2 * gy, ch["z"][0]:ch["z"][1] + 2 * gz]
     return np.ascontiguousarray(np.transpose(sub, (2, 1, 0)))
+
+
+def strip(p, g):
+    """The owned box of a stored piece [z][y][x]."""
+    gx, gy, gz = g3(g)
+    return p[gz:p.shape[0] - gz, gy:p.shape[1] - gy, gx:p.shape[2] - gx]
 
 
 def one_chunk(M):
     return [{"c": 0, "x": [0, M[0]], "y": [0, M[1]], "z": [0, M[2]]}]
 
 
-def write_par(path, M, g=3):
+def write_par(path, M, g=3, nlev=2):
     with open(path, "w") as f:
         f.write('ActiveThorns = "CoordBase Carpet"\n')
         for i, c in enumerate("xyz"):
             f.write(f"CoordBase::{c}min = 0.0\nCoordBase::{c}max = {float(M[i] - 1)}\nCoordBase::d{c} = 1.0\n")
             f.write(f"CoordBase::boundary_shiftout_{c}_lower = 1\nCoordBase::boundary_shiftout_{c}_upper = 1\n")
-        f.write("Carpet::max_refinement_levels = 2\nIO::out_dir = $parfile\n")
+        f.write(f"Carpet::max_refinement_levels = {nlev}\nIO::out_dir = $parfile\n")
 
 
 def make_sim(root, simname, restarts, M=(3, 4, 3), ghost=2, chunks=None, layout=("onefile", "ungrouped"),
@@ -67,7 +82,7 @@ def make_sim(root, simname, restarts, M=(3, 4, 3), ghost=2, chunks=None, layout=
         d = os.path.join(root, simname, f"output-{rnum:04d}", simname)
         os.makedirs(d, exist_ok=True)
         if rn == 0:
-            write_par(os.path.join(root, simname, f"output-{rnum:04d}", simname + ".par"), M)
+            write_par(os.path.join(root, simname, f"output-{rnum:04d}", simname + ".par"), M, nlev=max(2, nlev))
         its = {rl: [i for i in range(r["lo"], r["hi"] + 1) if i % r["every"] == 0] for rl in range(nlev)}
         written["its"][rnum] = its
         handles = {}
@@ -96,7 +111,7 @@ def make_sim(root, simname, restarts, M=(3, 4, 3), ghost=2, chunks=None, layout=
                         if nch > 1 or layout[0] == "proc":
                             key += f" c={ch['c']}"
                         ds = f.create_dataset(key, data=piece(E, ch, ghost))
-                        ds.attrs["cctk_nghostzones"] = np.array([ghost] * 3, dtype=np.int32)
+                        ds.attrs["cctk_nghostzones"] = np.array(g3(ghost), dtype=np.int32)     # Cactus order: (x, y, z)
                         ds.attrs["iorigin"] = np.array([ch["x"][0], ch["y"][0], ch["z"][0]], dtype=np.int32)
                         ds.attrs["time"] = np.float64(time_of(it))
                         ds.attrs["level"] = np.int32(rl)
